@@ -73,6 +73,36 @@ theorem C09_parse_roundtrip (i : Int) (hlo : Token.int64Min ≤ i) (hhi : i ≤ 
 
 theorem C09_parse_nat (n : Nat) : Token.parseNat (Token.natDigits n) = some n := Token.parseNat_natDigits n
 
+/-- RandomPartitioner token strings (`big.Int.SetString(s, 10)`): the decimal string of EVERY integer - no size bound:
+    Cassandra's range 0 … 2^127, the minimum token -1, anything beyond a machine word - parses to that integer, so
+    `Less` (`big.Int.Cmp`) on parsed tokens is `<` on the denoted numbers (ops parser, lessr) -/
+theorem C09_parse_big (i j : Int) :
+    Token.parseBig (Token.printInt i) = some i ∧
+    (∀ x y, Token.parseBig (Token.printInt i) = some x → Token.parseBig (Token.printInt j) = some y → (x < y ↔ i < j)) := by
+  refine ⟨Token.parseBig_printInt i, ?_⟩
+  intro x y hx hy
+  rw [Token.parseBig_printInt] at hx hy
+  cases hx; cases hy; exact Iff.rfl
+
+example : Token.parseBig (Token.printInt (-1)) = some (-1) ∧
+    Token.parseBig ['1','7','0','1','4','1','1','8','3','4','6','0','4','6','9','2','3','1','7','3','1','6','8','7','3','0','3','7','1','5','8','8','4','1','0','5','7','2','8']
+      = some (2^127) := by decide
+
+/-- **Which partitioner.** For EVERY package prefix, the class names Cassandra reports select the partitioner whose
+    hash / order the theorems above are about: `…Murmur3Partitioner` ↦ Murmur3, `…RandomPartitioner` ↦ Random,
+    `…ByteOrderedPartitioner` ↦ the order-preserving (bytewise) one; `…OrderPreservingPartitioner` (tokens are strings
+    under a collation, not bytes) is refused (op part; newTokenRing then reports "unsupported partitioner" and the
+    driver routes without tokens). -/
+theorem C09_partitioner_selection (pkg : List Char) :
+    Token.selectPartitioner (pkg ++ Token.nameMurmur3) = some .murmur3 ∧
+    Token.selectPartitioner (pkg ++ Token.nameRandom) = some .random ∧
+    Token.selectPartitioner (pkg ++ 'B' :: 'y' :: 't' :: 'e' :: Token.nameOrdered) = some .ordered ∧
+    Token.selectPartitioner (pkg ++ ['O','r','d','e','r','P','r','e','s','e','r','v','i','n','g','P','a','r','t','i','t','i','o','n','e','r']) = none :=
+  ⟨Token.select_murmur3 pkg, Token.select_random pkg, Token.select_byteOrdered pkg, Token.select_orderPreserving pkg⟩
+
+example : Token.selectPartitioner ['R','a','n','d','o','m','P','a','r','t','i','t','i','o','n','e','r'] = some .random ∧
+    Token.selectPartitioner ['r','a','n','d','o','m','P','a','r','t','i','t','i','o','n','e','r'] = none := by decide
+
 
 /-! ## routing key from the metadata of the prepared statement (session.go routingKeyInfo + createRoutingKey) -/
 
